@@ -152,35 +152,76 @@ def extract(ctx):
     register_resets = _resets_cache(reg_fn)
     register_op_resets = _resets_cache(regop_fn)
 
-    # ---- _get_closest_type: collects every matching sibling and returns a minimum over them
-    picks_min = False
+    # ---- _get_matching_types / _get_closest_type
+    picks_min = drops_supers = matching_deepest = False
     fn = find_def(core_tree, '_get_closest_type', cls='TargetRegistry')
     if fn is None:
         P.add('TargetRegistry._get_closest_type not found')
     else:
-        loops = [st for st in fn.body if isinstance(st, ast.For)]
-        ret_in_loop = any(isinstance(n, ast.Return) for lp in loops for n in ast.walk(lp))
+        src = [ast.unparse(st) for st in fn.body]
+        starts = bool(src) and src[0] == 'candidates = self._get_matching_types(obj, type_tree)'
+        drops_supers = starts and any(
+            x == 'candidates = [c for c in candidates if not any((o is not c and issubclass(o, c) '
+                 'for o in candidates))]' for x in src)
+        no_loop = not any(isinstance(st, (ast.For, ast.While)) for st in fn.body)
         min_ret = any(isinstance(st, ast.Return) and isinstance(st.value, ast.Call)
                       and isinstance(st.value.func, ast.Name) and st.value.func.id == 'min'
-                      and any(k.arg == 'key' for k in st.value.keywords)
+                      and ast.unparse(st.value.args[0]) == 'candidates'
+                      and any(k.arg == 'key' and ast.unparse(k.value) ==
+                              'lambda t: mro.index(t) if t in mro else len(mro)'
+                              for k in st.value.keywords)
                       for st in fn.body)
-        picks_min = bool(loops) and not ret_in_loop and min_ret
+        mro_ok = any(x == 'mro = type(obj).__mro__' for x in src)
+        picks_min = starts and no_loop and min_ret and mro_ok
+        if not (picks_min and drops_supers):
+            P.add('_get_closest_type: unrecognised shape: %r' % src)
+    fn = find_def(core_tree, '_get_matching_types', cls='TargetRegistry')
+    if fn is None:
+        P.add('TargetRegistry._get_matching_types not found')
+    else:
+        body = [st for st in fn.body if not (isinstance(st, ast.Expr) and isinstance(st.value, ast.Constant))]
+        src = [ast.unparse(st) for st in body]
+        want = ['ret = []',
+                'for cur_type, sub_tree in type_tree.items():\n'
+                '    if isinstance(obj, cur_type):\n'
+                '        ret.extend(self._get_matching_types(obj, sub_tree) or [cur_type])',
+                'return ret']
+        matching_deepest = src == want
+        if not matching_deepest:
+            P.add('_get_matching_types: unrecognised shape: %r' % src)
 
-    # ---- Glommer: its own registry; register / glom delegate to it
-    glommer_own = False
+    # ---- _register_fuzzy_type: the final guard
+    fuzzy_guard = False
+    fn = find_def(core_tree, '_register_fuzzy_type', cls='TargetRegistry')
+    if fn is None:
+        P.add('TargetRegistry._register_fuzzy_type not found')
+    else:
+        ifs = [st for st in fn.body if isinstance(st, ast.If)]
+        fuzzy_guard = any(ast.unparse(st.test) == 'not registered and new_type not in _type_tree'
+                          and [ast.unparse(x) for x in st.body] == ['_type_tree[new_type] = OrderedDict()']
+                          for st in ifs)
+        loops = [st for st in fn.body if isinstance(st, ast.For)]
+        loop_ok = len(loops) == 1 and ast.unparse(loops[0].iter) == 'list(_type_tree.items())'
+        if not loop_ok:
+            P.add('_register_fuzzy_type: the snapshot loop was not recognised')
+            fuzzy_guard = False
+
+    # ---- Glommer: its own registry, which learns the ops of the registry it is created from;
+    #      register / glom delegate to it
+    glommer_own = glommer_copies = False
     fn = find_def(core_tree, '__init__', cls='Glommer')
     if fn is None:
         P.add('Glommer.__init__ not found')
     else:
-        for st in fn.body:
-            if (isinstance(st, ast.Assign) and len(st.targets) == 1
-                    and ast.unparse(st.targets[0]) == 'self.scope[TargetRegistry]'
-                    and ast.unparse(st.value) ==
-                    'TargetRegistry(register_default_types=register_default_types)'):
-                glommer_own = True
-        copies = any(isinstance(st, ast.Assign) and ast.unparse(st.targets[0]) == 'self.scope'
-                     and 'dict(scope)' in ast.unparse(st.value) for st in fn.body)
-        glommer_own = glommer_own and copies
+        src = [ast.unparse(st) for st in fn.body]
+        glommer_own = ('registry = TargetRegistry(register_default_types=register_default_types)' in src
+                       and 'self.scope[TargetRegistry] = registry' in src
+                       and 'self.scope = ChainMap(dict(scope))' in src)
+        want_loop = ('if base_registry is not None:\n'
+                     '    for op_name, auto_func in base_registry._op_auto_map.items():\n'
+                     '        if op_name not in registry._op_auto_map:\n'
+                     '            registry.register_op(op_name, auto_func=auto_func)')
+        glommer_copies = ('base_registry = scope.get(TargetRegistry)' in src and want_loop in src)
     fn = find_def(core_tree, 'register', cls='Glommer')
     glommer_delegates = fn is not None and any(
         'self.scope[TargetRegistry].register(target_type' in ast.unparse(st) for st in fn.body)
@@ -251,7 +292,11 @@ def extract(ctx):
         ('c13RegisterResetsMemo', 'Bool', bool(register_resets)),
         ('c13RegisterOpResetsMemo', 'Bool', bool(register_op_resets)),
         ('c13ClosestPicksMin', 'Bool', bool(picks_min)),
+        ('c13ClosestDropsSupers', 'Bool', bool(drops_supers)),
+        ('c13MatchingDeepest', 'Bool', bool(matching_deepest)),
+        ('c13FuzzyGuardsExisting', 'Bool', bool(fuzzy_guard)),
         ('c13GlommerOwnRegistry', 'Bool', bool(glommer_own)),
+        ('c13GlommerCopiesOps', 'Bool', bool(glommer_copies)),
         ('c13GlommerDelegates', 'Bool', bool(glommer_delegates)),
         ('c13ModuleDelegates', 'Bool', bool(module_delegates)),
         ('c13ModuleRegistryDefault', 'Bool', bool(module_default)),
